@@ -346,3 +346,18 @@ Theorem C03_fragment_link_instance :
   wf_b (FLink 97 [] $"x" $"a b" []) = false /\ wf_b (FLink 97 [] $"x" $"a(b)" []) = false.
 Proof. vm_compute. repeat split; reflexivity. Qed.
 Print Assumptions C03_fragment_link_instance.
+
+(* ANY NUMBER of inline links in one sentence (Proofs/LinkPhrases.v): t0 [w1](d1) t1 ... [wn](dn) tn tokenizes to t0 and, for every
+   link, one Link to di holding wi followed by the text ti - for every n *)
+From Mistletoe Require Import Proofs.LinkPhrases.
+Theorem C03_link_phrases : forall types fn t0 gs,
+  ref_spans types = true -> PlainProse.plain_text t0 && forallb lseg_okb gs = true ->
+  Inline.tokenize_inner types fn (t0 ++ lbody gs) = EmphSentence.raw_if t0 ++ link_toks gs.
+Proof. exact link_phrases. Qed.
+Print Assumptions C03_link_phrases.
+
+Theorem C03_link_phrases_instance :
+  let gs : list lseg := [($"one", $"/a", $" and "); ($"two words", $"http://x.y/z_1", []); ($"3", $"#f", $".")] in
+  (forallb lseg_okb gs = true) /\ (lbody gs = $"[one](/a) and [two words](http://x.y/z_1)[3](#f).") /\ (lseg_okb ($"x", $"a b", []) = false).
+Proof. exact links_instance. Qed.
+Print Assumptions C03_link_phrases_instance.
